@@ -373,10 +373,13 @@ def run_chain(ns, ctx, start, ops, rec=True):
             # ... also when the caller goes on to edit what it got back (strips or sets the heights of its copy)
             saved = dict(vars(nxt))
             try:
+                ctx.count('results_edited_by_caller')
                 for k in ('ell_ht', 'orth_ht', 'nval'):
                     if k in saved:
-                        setattr(nxt, k, None if saved[k] is not None else 1.25)
-                ctx.count('results_edited_by_caller')
+                        try:
+                            setattr(nxt, k, None if saved[k] is not None else 1.25)
+                        except (AttributeError, TypeError):
+                            ctx.count('result_refused_the_edit(read-only object)')
                 if snapshot(src) != before:
                     ctx.violation('%s.%s:result-shares-state-with-its-source' % (type(src).__name__, name), case,
                                   {'source_before': before, 'source_after_result_was_edited': snapshot(src), 'same_object': nxt is src})
